@@ -23,6 +23,21 @@ CLAIMED = {
     ),
 }
 
+CLAIMED["C03"] = (
+    "property-based testing: generated well-typed programs (oracle: no diagnostic) and single-fault injection with 27 rule-specific injectors plus curated missing-token faults (oracle: exactly the predicted message on the culprit node known by construction)",
+    "Exploration: tens of thousands of generated valid programs must be diagnostic-free; for each of the 27 build/semantic message kinds an injector adds one violating construct at a random place and the check demands exactly one diagnostic with the rule's message on the culprit; missing-token faults demand the matching message at the end of the preceding token and containment in the declaration. Every diagnostic range is converted as the server publishes it and mapped back with an independent LSP position model.",
+    "Trusted: the program generator's notion of well-typed SPL (DESIGN section 2 G1), the injectors' single-message predictions (checked against SPL's rules and the checker's do-not-report-twice policy), the LSP position model.",
+    "DESIGN.md section 6 C03",
+    "A",
+)
+CLAIMED["C04"] = (
+    "property-based testing with a generating derivation as oracle: programs are generated as derivation trees, rendered under two random layouts (whitespace, CRLF, comments in any gap) and the parser's tree (shape, operators, literal values, every node's absolute token range, collected documentation) must equal the derivation",
+    "Exploration: the generator's normalised derivation tree IS the tree the SPL grammar mandates for the rendered text (parentheses are inserted exactly where precedence/associativity demand them), so equality with the parser's result decides the property per case; 30k (500k) programs x 2 layouts.",
+    "Trusted: the normalisation rules (precedence *,/ > +,- > comparison, left associativity, single non-associative comparison, else binds to nearest if) and the walker that accumulates Reference offsets.",
+    "DESIGN.md section 6 C04",
+    "A",
+)
+
 NOT_YET = "check not built yet (implementation in progress, see DESIGN.md section 8 build order)"
 NOT_APPLICABLE = {}
 
